@@ -330,8 +330,13 @@ class SE:
             elif op == 'ASSUME':
                 self.assumes.append(z3.Implies(pc, self.ev(x['guard'], st)))
             elif op == 'ASSERT':
-                c = self.ev(x['guard'], st)
                 sl = x.get('sourceLocation', {})
+                if sl.get('propertyClass') == 'overflow' and (sl.get('function', '').startswith(('hz_', 'ALLOC_', 'VIEW_', 'GHOST_')) or sl.get('function', '').endswith('_contract')):
+                    # machine-overflow side conditions on SPECIFICATION arithmetic (harness / ghost contract code): engine Z
+                    # evaluates specification terms over the mathematical integers, so they cannot wrap - no obligation
+                    n += 1
+                    continue
+                c = self.ev(x['guard'], st)
                 self.results.append((sl.get('propertyId', '?'), sl.get('comment', ''), pc, c,
                                      sl.get('line', ''), sl.get('function', ''), sl.get('propertyClass', ''), len(self.assumes)))
             elif op == 'GOTO':
@@ -340,6 +345,9 @@ class SE:
                 if tgt is None:
                     raise Unsupported('goto target')
                 if tgt <= n:
+                    if z3.is_false(z3.simplify(g)):      # `do { ... } while (0)`: the back edge is never taken
+                        n += 1
+                        continue
                     raise Unsupported('backward goto (loop) in %s' % fname)
                 pending.setdefault(tgt, []).append((z3.And(pc, g), dict(st)))
                 ng = z3.simplify(z3.And(pc, z3.Not(g)))
@@ -370,7 +378,7 @@ class SE:
 
 
 def load_goto(gb):
-    rc, out, err, _ = sh(['cbmc', '--no-standard-checks', '--show-goto-functions', '--json-ui', gb], timeout=120)
+    rc, out, err, _ = sh(['cbmc', '--no-standard-checks', '--show-goto-functions', '--json-ui', gb], timeout=600, mem_kb=None)
     try:
         d = json.loads(out)
     except ValueError:
@@ -448,7 +456,7 @@ def work(check, unit_c, wd_dir, tier):
     gi = ['goto-instrument', '--no-pointer-check', '--no-bounds-check', '--no-pointer-primitive-check', '--signed-overflow-check', '--div-by-zero-check', '--undefined-shift-check']
     if zopts.get('unsigned_overflow', False):
         gi.append('--unsigned-overflow-check')
-    gi += list(check.gi_flags) + [gb, gb2]
+    gi += ['--drop-unused-functions'] + list(check.gi_flags) + [gb, gb2]
     rc, out, err, _ = sh(gi, timeout=120)
     if rc != 0:
         raise Undecided('goto-instrument failed [%s]: %s' % (tag, (out + err)[-2000:]))
@@ -496,7 +504,9 @@ def work(check, unit_c, wd_dir, tier):
     if not check.no_vacuity:
         if not vac:
             raise Undecided('harness %s has no VACUITY must-fail assertion' % check.harness)
-        if any(v['status'] != 'FAILURE' for v in vac):
+        # (a failing obligation is assumed by the later queries, so it can make the end of the harness unreachable:
+        #  that is a violation to report, not a vacuous proof)
+        if any(v['status'] != 'FAILURE' for v in vac) and not any(o['status'] == 'FAILURE' for o in obls):
             raise Undecided('vacuous (engine Z): must-fail assertion in %s is %s' % (check.harness, vac[0]['status']))
     unk = [o for o in obls if o['status'] == 'UNKNOWN']
     if unk:
